@@ -296,3 +296,242 @@ Proof. intros H. specialize (H [97; 10] eq_refl). vm_compute in H. discriminate.
 
 Lemma use_unescaped_refuted : ~ (forall ks, lex_use (use_keyspace_e false ks) = Some ks).
 Proof. intros H. specialize (H [97; 34; 98]). vm_compute in H. discriminate. Qed.
+
+(* ---------- whole-statement tokenizer: schema export producers ---------- *)
+Lemma tokenize_step : forall f s, tokenize (S f) s =
+    match s with
+    | [] => Some []
+    | c :: s' =>
+      if is_space c then tokenize f s'
+      else if c =? SQ then match lex_quoted_body SQ s' with Some (v, r) => pre (TStrLit v) (tokenize f r) | None => None end
+      else if c =? DQ then match lex_quoted_body DQ s' with Some (v, r) => pre (TId v) (tokenize f r) | None => None end
+      else if is_letter c then
+        let (w, r) := span is_ident_char s in
+        let lw := map to_lower w in
+        pre (if reserved lw then TKw lw else TId lw) (tokenize f r)
+      else if is_digit c then
+        let (d, r) := span is_digit s in pre (TNum (digits_value d)) (tokenize f r)
+      else pre (TP c) (tokenize f s')
+    end.
+Proof. reflexivity. Qed.
+
+Lemma tokenize_mono : forall f s l, tokenize f s = Some l -> tokenize (S f) s = Some l.
+Proof.
+  induction f as [|f IH]; intros s l H; [discriminate|].
+  assert (Hpre : forall t r, pre t (tokenize f r) = Some l -> pre t (tokenize (S f) r) = Some l).
+  { intros t r Hp. destruct (tokenize f r) as [l0|] eqn:E; [|discriminate]. rewrite (IH _ _ E). exact Hp. }
+  rewrite tokenize_step in H. rewrite (tokenize_step (S f) s).
+  destruct s as [|c s']; [assumption|].
+  destruct (is_space c); [apply IH; assumption|].
+  destruct (c =? SQ). { destruct (lex_quoted_body SQ s') as [[v r]|]; [apply Hpre; assumption|discriminate]. }
+  destruct (c =? DQ). { destruct (lex_quoted_body DQ s') as [[v r]|]; [apply Hpre; assumption|discriminate]. }
+  destruct (is_letter c). { destruct (span is_ident_char (c :: s')) as [w r]. apply Hpre. assumption. }
+  destruct (is_digit c). { destruct (span is_digit (c :: s')) as [d r]. apply Hpre. assumption. }
+  apply Hpre. assumption.
+Qed.
+
+Lemma tokenize_ge : forall f g s l, (f <= g)%nat -> tokenize f s = Some l -> tokenize g s = Some l.
+Proof. intros f g s l Hle H. induction Hle; [assumption|apply tokenize_mono; assumption]. Qed.
+
+Definition name_stop (r : str) : Prop := stops (Z.eqb DQ) r /\ stops is_ident_char r.
+
+Lemma tok_space : forall f r, tokenize (S f) (32 :: r) = tokenize f r.
+Proof. reflexivity. Qed.
+
+Lemma tok_punct : forall c f r, (c = 40 \/ c = 41 \/ c = 44 \/ c = 58 \/ c = 123 \/ c = 125) ->
+  tokenize (S f) (c :: r) = pre (TP c) (tokenize f r).
+Proof. intros c f r [-> | [-> | [-> | [-> | [-> | ->]]]]]; reflexivity. Qed.
+
+Lemma tok_quoted_name : forall n f r, stops (Z.eqb DQ) r ->
+  tokenize (S f) (escape_name n ++ r) = pre (TId n) (tokenize f r).
+Proof.
+  intros n f r H. unfold escape_name. cbn [app tokenize]. change (is_space DQ) with false. change (DQ =? SQ) with false.
+  rewrite Z.eqb_refl. cbv iota. rewrite <- app_assoc. cbn [app]. rewrite (lex_quoted_body_esc DQ n r H). reflexivity.
+Qed.
+
+Lemma tok_string : forall s f r, stops (Z.eqb SQ) r ->
+  tokenize (S f) (cql_quote s ++ r) = pre (TStrLit s) (tokenize f r).
+Proof.
+  intros s f r H. unfold cql_quote. cbn [app tokenize]. change (is_space SQ) with false. rewrite Z.eqb_refl. cbv iota.
+  rewrite <- app_assoc. cbn [app]. rewrite (lex_quoted_body_esc SQ s r H). reflexivity.
+Qed.
+
+Lemma letter_facts : forall c, is_letter c = true -> is_space c = false /\ (c =? SQ) = false /\ (c =? DQ) = false.
+Proof.
+  intros c H. unfold is_letter, is_upper, is_lower in H. unfold is_space, SQ, DQ.
+  apply orb_true_iff in H. destruct H as [H|H]; apply andb_true_iff in H; destruct H as [A B]; apply Z.leb_le in A, B;
+    (split; [repeat (apply orb_false_iff; split); apply Z.eqb_neq; lia|split; apply Z.eqb_neq; lia]).
+Qed.
+
+Lemma tok_name_strict : forall n f r, name_stop r ->
+  tokenize (S f) (maybe_escape_name_d false n ++ r) = pre (TId n) (tokenize f r).
+Proof.
+  intros n f r [Hdq Hid]. unfold maybe_escape_name_d. destruct (is_valid_name_d false n) eqn:Hv; [|apply tok_quoted_name; assumption].
+  assert (Hm : maybe_escape_name_d false n = n) by (unfold maybe_escape_name_d; rewrite Hv; reflexivity).
+  destruct (unquoted_ok_strict n Hm) as [_ Hres].
+  unfold is_valid_name_d in Hv. destruct (driver_reserved (py_lower n)); [discriminate|].
+  apply strict_word_lexes in Hv. destruct Hv as [Hlow (c & n' & Hn & Hlet & _ & Hspan)].
+  assert (Hall : forallb is_ident_char n = true).
+  { pose proof (span_fst_all is_ident_char n) as Hf. rewrite Hspan in Hf. exact Hf. }
+  pose proof (span_app is_ident_char n r Hall Hid) as Hsp.
+  destruct (letter_facts c Hlet) as (Hs & Hq & Hd).
+  rewrite Hn in *. cbn [app] in *. cbn [tokenize]. rewrite Hs, Hq, Hd, Hlet, Hsp, Hlow, Hres. reflexivity.
+Qed.
+
+Lemma tok_protect_name : forall n f r, name_stop r ->
+  tokenize (S f) (protect_name n ++ r) = pre (TId n) (tokenize f r).
+Proof. unfold protect_name, maybe_escape_name. change word_re_dollar with false. exact tok_name_strict. Qed.
+
+(* fuel and tokens of ", name, name ..." *)
+Fixpoint fuel3 (l : list str) (f : nat) : nat := match l with [] => f | _ :: l' => S (S (S (fuel3 l' f))) end.
+Fixpoint pre_list (ts : list tok) (o : option (list tok)) : option (list tok) :=
+  match ts with [] => o | t :: ts' => pre t (pre_list ts' o) end.
+Definition names_tail (l : list str) : str := flat_map (fun y => [44; 32] ++ protect_name y) l.
+
+Lemma names_tail_eq : forall l, flat_map (fun y => [44; 32] ++ y) (map protect_name l) = names_tail l.
+Proof. induction l as [|a l IH]; [reflexivity|]. cbn [map flat_map names_tail]. unfold names_tail in IH. rewrite IH. reflexivity. Qed.
+
+Lemma name_stop_comma : forall r, name_stop (44 :: r).
+Proof. intros r. split; reflexivity. Qed.
+Lemma name_stop_paren : forall r, name_stop (41 :: r).
+Proof. intros r. split; reflexivity. Qed.
+
+Lemma tok_names_tail : forall l f r, name_stop r ->
+  tokenize (fuel3 l f) (names_tail l ++ r) = pre_list (flat_map (fun y => [TP 44; TId y]) l) (tokenize f r).
+Proof.
+  induction l as [|a l IH]; intros f r Hr; [reflexivity|].
+  cbn [fuel3 names_tail flat_map app]. rewrite <- !app_assoc. cbn [app].
+  rewrite (tok_punct 44) by tauto. rewrite tok_space.
+  assert (Hs : name_stop (names_tail l ++ r)). { destruct l; [exact Hr|apply name_stop_comma]. }
+  fold (names_tail l). rewrite (tok_protect_name a _ _ Hs). rewrite (IH f r Hr). reflexivity.
+Qed.
+
+Definition names_tokens (ns : list str) : list tok :=
+  match ns with [] => [] | a :: l => TId a :: flat_map (fun y => [TP 44; TId y]) l end.
+Definition names_fuel (ns : list str) (f : nat) : nat := match ns with [] => f | _ :: l => S (fuel3 l f) end.
+
+Lemma tok_names_joined : forall ns f r, name_stop r ->
+  tokenize (names_fuel ns f) (names_joined ns ++ r) = pre_list (names_tokens ns) (tokenize f r).
+Proof.
+  intros [|a l] f r Hr; [reflexivity|].
+  unfold names_joined, join. cbn [map names_fuel names_tokens pre_list]. rewrite names_tail_eq. rewrite <- app_assoc.
+  assert (Hs : name_stop (names_tail l ++ r)). { destruct l; [exact Hr|apply name_stop_comma]. }
+  rewrite (tok_protect_name a _ _ Hs). rewrite (tok_names_tail l f r Hr). reflexivity.
+Qed.
+
+(* TableMetadataDSE68._export_edge_as_cql: label, partition key(s) and clustering columns all read back *)
+Definition edge_tokens (kw : tok) (label : str) (pks ccs : list str) : list tok :=
+  kw :: TId label :: TP 40 ::
+  (match pks with [k] => [TId k] | _ => TP 40 :: names_tokens pks ++ [TP 41] end) ++
+  (match ccs with [] => [] | _ => TP 44 :: names_tokens ccs end) ++ [TP 41].
+
+Lemma pre_list_app : forall a b o, pre_list (a ++ b) o = pre_list a (pre_list b o).
+Proof. induction a as [|t a IH]; intros; [reflexivity|]. cbn. rewrite IH. reflexivity. Qed.
+
+Lemma pre_list_Some : forall a b, pre_list a (Some b) = Some (a ++ b).
+Proof. induction a as [|t a IH]; intros b; [reflexivity|]. cbn. rewrite IH. reflexivity. Qed.
+
+Lemma pre_list_some : forall ts, pre_list ts (Some []) = Some ts.
+Proof. induction ts as [|t ts IH]; [reflexivity|]. cbn. rewrite IH. reflexivity. Qed.
+
+Definition edge_fuel (pks ccs : list str) : nat :=
+  S (S (S (S (match pks with [_] => 1 | _ => S (names_fuel pks 1) end +
+              match ccs with [] => 0 | _ => S (S (names_fuel ccs 0)) end + 2))))%nat.
+
+Lemma tok_ccs : forall ccs f r,
+  tokenize (match ccs with [] => f | _ => S (S (names_fuel ccs f)) end)
+           ((match ccs with [] => [] | _ => 44 :: 32 :: names_joined ccs end) ++ 41 :: r) =
+  pre_list (match ccs with [] => [] | _ => TP 44 :: names_tokens ccs end) (tokenize f (41 :: r)).
+Proof.
+  intros [|c l] f r; [reflexivity|]. cbn [app]. rewrite (tok_punct 44) by tauto. rewrite tok_space.
+  rewrite (tok_names_joined (c :: l) f (41 :: r) (name_stop_paren r)). reflexivity.
+Qed.
+
+Lemma tok_export_edge_from_to : forall (kwtext : str) (kw : tok) label pks ccs,
+  (forall f r, tokenize (S (S (S f))) (32 :: kwtext ++ 32 :: r) = pre kw (tokenize f r)) ->
+  exists K, forall fuel, (K <= fuel)%nat ->
+  tokenize fuel (export_edge kwtext label pks ccs) = Some (edge_tokens kw label pks ccs).
+Proof.
+  intros kwtext kw label pks ccs Hkw.
+  set (fc := match ccs with [] => 2%nat | _ => S (S (names_fuel ccs 2)) end).
+  set (fp := match pks with [_] => S fc | _ => S (names_fuel pks (S fc)) end).
+  exists (S (S (S (S (S fp))))). intros fuel Hle. apply (tokenize_ge (S (S (S (S (S fp)))))); [assumption|].
+  unfold export_edge, edge_tokens.
+  change (32 :: kwtext ++ 32 :: protect_name label ++ 40 :: ?x) with (32 :: kwtext ++ 32 :: (protect_name label ++ 40 :: x)).
+  rewrite Hkw. rewrite (tok_protect_name label) by (split; reflexivity). rewrite (tok_punct 40) by tauto.
+  assert (Hcc : forall f0, f0 = fc ->
+            tokenize f0 ((match ccs with [] => [] | _ => 44 :: 32 :: names_joined ccs end) ++ [41]) =
+            Some ((match ccs with [] => [] | _ => TP 44 :: names_tokens ccs end) ++ [TP 41])).
+  { intros f0 ->. unfold fc. pose proof (tok_ccs ccs 2 []) as H. rewrite H.
+    change (tokenize 2 [41]) with (Some [TP 41]). apply pre_list_Some. }
+  destruct pks as [|k [|k2 pks']].
+  - (* no partition key: "()" *)
+    unfold fp. cbn [names_fuel names_joined join map app names_tokens]. rewrite <- ?app_assoc. cbn [app].
+    rewrite (tok_punct 40) by tauto. rewrite (tok_punct 41) by tauto. rewrite (Hcc fc eq_refl). reflexivity.
+  - unfold fp. rewrite <- ?app_assoc.
+    assert (Hs : name_stop ((match ccs with [] => [] | _ => 44 :: 32 :: names_joined ccs end) ++ [41])).
+    { destruct ccs; [apply name_stop_paren|apply name_stop_comma]. }
+    rewrite (tok_protect_name k _ _ Hs). rewrite (Hcc fc eq_refl). reflexivity.
+  - unfold fp. cbn [app]. rewrite (tok_punct 40) by tauto. rewrite <- ?app_assoc. cbn [app].
+    rewrite (tok_names_joined (k :: k2 :: pks') (S fc) _ (name_stop_paren _)).
+    cbn [app]. rewrite (tok_punct 41) by tauto. rewrite (Hcc fc eq_refl).
+    cbn [pre]. rewrite pre_list_Some. cbn [pre]. rewrite <- ?app_assoc. reflexivity.
+Qed.
+
+(* the option map of a custom index (dict of str -> str through the Encoder) *)
+Fixpoint map_tail_tokens (l : list (str * str)) : list tok :=
+  match l with [] => [] | kv :: l' => TP 44 :: TStrLit (fst kv) :: TP 58 :: TStrLit (snd kv) :: map_tail_tokens l' end.
+Definition map_tokens (kvs : list (str * str)) : list tok :=
+  TP 123 :: (match kvs with [] => [] | kv :: l => TStrLit (fst kv) :: TP 58 :: TStrLit (snd kv) :: map_tail_tokens l end) ++ [TP 125].
+Fixpoint fuel6 (l : list (str * str)) (f : nat) : nat := match l with [] => f | _ :: l' => (6 + fuel6 l' f)%nat end.
+Definition entry_text (kv : str * str) : str := cql_quote (fst kv) ++ 58 :: 32 :: cql_quote (snd kv).
+Definition map_tail (l : list (str * str)) : str := flat_map (fun kv => [44; 32] ++ entry_text kv) l.
+
+Lemma tok_entry : forall kv f r, stops (Z.eqb SQ) r ->
+  tokenize (S (S (S (S f)))) (entry_text kv ++ r) = pre (TStrLit (fst kv)) (pre (TP 58) (pre (TStrLit (snd kv)) (tokenize f r))).
+Proof.
+  intros kv f r Hr. unfold entry_text. rewrite <- app_assoc. cbn [app].
+  rewrite tok_string by reflexivity. rewrite (tok_punct 58) by tauto. rewrite tok_space.
+  rewrite tok_string by assumption. reflexivity.
+Qed.
+
+Lemma tok_map_tail : forall l f r, stops (Z.eqb SQ) r ->
+  tokenize (fuel6 l f) (map_tail l ++ r) = pre_list (map_tail_tokens l) (tokenize f r).
+Proof.
+  induction l as [|kv l IH]; intros f r Hr; [reflexivity|].
+  cbn [fuel6 map_tail flat_map map_tail_tokens pre_list Nat.add]. rewrite <- !app_assoc. cbn [app].
+  rewrite (tok_punct 44) by tauto. rewrite tok_space. fold (map_tail l).
+  assert (Hs : stops (Z.eqb SQ) (map_tail l ++ r)). { destruct l; [exact Hr|reflexivity]. }
+  rewrite (tok_entry kv _ _ Hs). rewrite (IH f r Hr). reflexivity.
+Qed.
+
+Lemma tok_string_map : forall kvs, exists K, forall fuel, (K <= fuel)%nat ->
+  tokenize fuel (string_map kvs) = Some (map_tokens kvs).
+Proof.
+  intros kvs. destruct kvs as [|kv l].
+  - exists 3%nat. intros fuel Hle. apply (tokenize_ge 3); [assumption|reflexivity].
+  - exists (S (4 + fuel6 l 2))%nat. intros fuel Hle. apply (tokenize_ge (S (4 + fuel6 l 2))); [assumption|].
+    unfold string_map, join, map_tokens. cbn [map]. rewrite (tok_punct 123) by tauto.
+    assert (E : flat_map (fun y => [44; 32] ++ y) (map (fun kv0 => cql_quote (fst kv0) ++ 58 :: 32 :: cql_quote (snd kv0)) l) = map_tail l).
+    { clear. induction l as [|a l IH]; [reflexivity|]. cbn [map flat_map map_tail]. unfold map_tail in IH. rewrite IH. reflexivity. }
+    rewrite E. fold (entry_text kv). rewrite <- app_assoc.
+    assert (Hs : stops (Z.eqb SQ) (map_tail l ++ [125])). { destruct l; reflexivity. }
+    cbn [Nat.add]. rewrite (tok_entry kv _ _ Hs). rewrite (tok_map_tail l 2 [125]) by reflexivity.
+    change (tokenize 2 [125]) with (Some [TP 125]). rewrite pre_list_Some. reflexivity.
+Qed.
+
+Lemma tok_kw_from : forall f r, tokenize (S (S (S f))) (32 :: codes "FROM" ++ 32 :: r) = pre (TKw (codes "from")) (tokenize f r).
+Proof.
+  intros f r. rewrite tok_space. rewrite tokenize_step. change (codes "FROM") with [70; 82; 79; 77]. cbn [app].
+  change (is_space 70) with false. change (70 =? SQ) with false. change (70 =? DQ) with false. change (is_letter 70) with true. cbv iota.
+  change (span is_ident_char (70 :: 82 :: 79 :: 77 :: 32 :: r)) with ([70; 82; 79; 77], 32 :: r). cbv iota beta zeta.
+  change (reserved (map to_lower [70; 82; 79; 77])) with true. cbv iota. rewrite tok_space. reflexivity.
+Qed.
+
+Lemma tok_kw_to : forall f r, tokenize (S (S (S f))) (32 :: codes "TO" ++ 32 :: r) = pre (TKw (codes "to")) (tokenize f r).
+Proof.
+  intros f r. rewrite tok_space. rewrite tokenize_step. change (codes "TO") with [84; 79]. cbn [app].
+  change (is_space 84) with false. change (84 =? SQ) with false. change (84 =? DQ) with false. change (is_letter 84) with true. cbv iota.
+  change (span is_ident_char (84 :: 79 :: 32 :: r)) with ([84; 79], 32 :: r). cbv iota beta zeta.
+  change (reserved (map to_lower [84; 79])) with true. cbv iota. rewrite tok_space. reflexivity.
+Qed.
